@@ -38,6 +38,20 @@ func verifSameTemplate(x, y TemplateRecord) bool {
 	return eq
 }
 
+// FNV-1 (32 bit) of the exporter address octets followed by the big-endian template id: the
+// key the cache is DOCUMENTED to use. The guard of the known finding (pairs that collide
+// under this hash) is expressed with this reference, not with whatever the implementation
+// computes, so that a changed key computation is not excused by it.
+func verifRefHash(a net.IP, id uint16) uint32 {
+	h := uint32(2166136261)
+	for i := 0; i < len(a); i++ {
+		h = (h * 16777619) ^ uint32(verifAt(a, i))
+	}
+	h = (h * 16777619) ^ uint32(id>>8)
+	h = (h * 16777619) ^ uint32(id&0xff)
+	return h
+}
+
 func verifNewCache() MemCache {
 	return GetCache("/nonexistent/verif-cache") // ReadFile fails => fresh 32-shard cache
 }
@@ -72,10 +86,10 @@ func VerifV9CacheIsolation() {
 	h1 := verifPinShard(m, i, a)
 	b, j := verifAddr(), verifNondetU16()
 	verifAssume(!verifAll(verifAddrEq(a, b), i == j))
-	h2 := verifPinSecond(m, j, b, h1)
+	verifPinSecond(m, j, b, h1)
 	if verifKnown("C04-hash-collision") {
-		// known finding: the map is keyed by the 32-bit hash alone; see VerifKFV9CacheCollision
-		verifAssume(h1 != h2)
+		// known finding: the map is keyed by the 32-bit hash alone; see the collision witness
+		verifAssume(verifRefHash(a, i) != verifRefHash(b, j))
 	}
 	m.insert(i, a, verifTemplate(i))
 	_, ok := m.retrieve(j, b)
@@ -108,9 +122,9 @@ func VerifV9CacheLatest() {
 	h1 := verifPinShard(m, i, a)
 	b, j := verifAddr(), verifNondetU16()
 	verifAssume(!verifAll(verifAddrEq(a, b), i == j))
-	h2 := verifPinSecond(m, j, b, h1)
+	verifPinSecond(m, j, b, h1)
 	if verifKnown("C04-hash-collision") {
-		verifAssume(h1 != h2)
+		verifAssume(verifRefHash(a, i) != verifRefHash(b, j))
 	}
 	t1, t2, t3 := verifTemplate(i), verifTemplate(i), verifTemplate(j)
 	m.insert(i, a, t1)
@@ -122,5 +136,22 @@ func VerifV9CacheLatest() {
 	got3, ok3 := m.retrieve(j, b)
 	verifAssert(ok3, "the other exporter's template is found")
 	verifAssert(verifSameTemplate(got3, t3), "the other exporter's template is its own")
+	verifReach("end")
+}
+
+// C01: the real cache operations never panic, for 4- and 16-octet exporter addresses and any id.
+func VerifV9CacheOpsNoPanic() {
+	m := verifNewCache()
+	var a net.IP
+	if verifCase(2) == 0 {
+		a = net.IP{192, 0, 2, 33}
+	} else {
+		a = net.IP{0x20, 0x01, 0x0d, 0xb8, 0, 0, 0, 0, 0, 0, 0, 0, 0, 0, 0, 0x33}
+	}
+	id := verifNondetU16()
+	m.insert(id, a, verifTemplate(id))
+	tr, ok := m.retrieve(id, a)
+	verifAssert(verifAll(ok, tr.TemplateID == id), "an inserted template is found")
+	m.retrieve(verifNondetU16(), a)
 	verifReach("end")
 }
